@@ -27,6 +27,7 @@ def sym_bytes(ex, ctx, name, max_len=None):
     if not hasattr(ex, "len_vars"):
         ex.len_vars = {}
     ex.len_vars[s.get_id()] = L
+    ex.__dict__.setdefault("_keep_alive", []).append(s)   # ids key the table: the term must stay alive
     ctx.vars[name] = s
     ctx.vars[name + "_len"] = L
     return s, L
